@@ -100,7 +100,7 @@ class Indentation(afmformats.AFMForceDistance):
                     fp.pop(ax)
 
         # remember preprocessing
-        self.preprocessing = preprocessing
+        self.preprocessing = copy.deepcopy(preprocessing)
         self.preprocessing_options = copy.deepcopy(options)
 
         return self._preprocessing_details
@@ -294,7 +294,8 @@ class Indentation(afmformats.AFMForceDistance):
         if model_key is not None:
             self.fit_properties["model_key"] = model_key
         if self.fit_properties.get("params_initial", False):
-            parms = self.fit_properties["params_initial"]
+            # return a copy (settings are stored by value)
+            parms = copy.deepcopy(self.fit_properties["params_initial"])
         elif "model_key" in self.fit_properties:
             parms = guess_initial_parameters(
                 self,
@@ -372,7 +373,8 @@ class Indentation(afmformats.AFMForceDistance):
                               names=names,
                               lda=lda)
             rt = rater.rate(datasets=self)[0]
-            self._rating = (curhash, regressor, training_set, names, lda, rt)
+            self._rating = (curhash, regressor, training_set,
+                            copy.deepcopy(names), lda, rt)
         else:
             # Use cached rating
             rt = self._rating[-1]
